@@ -40,7 +40,10 @@ async def segment_fetcher(app: NDNApp, name: NonStrictName, timeout=4000, retry_
             future = app.express_interest(name, validator=validator, can_be_prefix=first,
                                           must_be_fresh=must_be_fresh, lifetime=timeout)
             try:
-                return await future
+                data_name, meta, content = await future
+                # One Data satisfies every pending Interest it matches and all of them receive the same name
+                # list; it is modified below, so work on a copy
+                return list(data_name), meta, content
             except InterestTimeout:
                 trial_times += 1
                 if trial_times >= retry_times:
